@@ -1699,10 +1699,51 @@ func ruleInnerFlushOverrides(r *Run, rule string) {
 				}
 			}
 			sort.Strings(missing)
+			// the flush decision itself comes from the units: the variable that guards the flush branch
+			// is set from a unit response outside the branch
+			if cid, ok := ast.Unparen(flush.Cond).(*ast.Ident); ok && n == 1 {
+				cv, _ := info.Uses[cid].(*types.Var)
+				r.check(cv != nil && flushDecisionFromResponse(v, flush, cv), rule, fmt.Sprintf("%s.(CPU).Run:flush-decision", v.rel), flush.Pos(), "the flag that guards the flush branch accumulates the flush request of every execute-unit response")
+			}
 			r.check(len(missing) == 0, rule, fmt.Sprintf("%s.(CPU).Run:inner-flush#%d:complete", v.rel, n), is.Pos(), "an inner flush replaces ALL of the flush state the drain and the restart read (restart pc, sequence limit); left at the younger flush's value: %v", missing)
 			return true
 		})
 	}
+}
+
+// flushDecisionFromResponse: cv is assigned, outside the flush branch, from an expression that
+// mentions a bool field of a unit response.
+func flushDecisionFromResponse(v *variant, flush *ast.IfStmt, cv *types.Var) bool {
+	info := v.info
+	run := v.mainLoop()
+	if run == nil {
+		return false
+	}
+	found := false
+	ast.Inspect(run, func(m ast.Node) bool {
+		as, ok := m.(*ast.AssignStmt)
+		if !ok || (flush.Body.Pos() <= as.Pos() && as.Pos() < flush.Body.End()) || len(as.Lhs) != len(as.Rhs) {
+			return true
+		}
+		for i, l := range as.Lhs {
+			id, ok := ast.Unparen(l).(*ast.Ident)
+			if !ok || info.Uses[id] != cv {
+				continue
+			}
+			ast.Inspect(as.Rhs[i], func(x ast.Node) bool {
+				if sel, ok := x.(*ast.SelectorExpr); ok {
+					if s := info.Selections[sel]; s != nil && s.Kind() == types.FieldVal && typeName(s.Obj().Type()) == "bool" {
+						if n := namedOf(s.Recv()); n != nil && strings.HasSuffix(strings.ToLower(n.Obj().Name()), "resp") {
+							found = true
+						}
+					}
+				}
+				return true
+			})
+		}
+		return true
+	})
+	return found
 }
 
 // flushStateVars: the locals of the main loop that (a) are read inside the flush branch and
